@@ -254,12 +254,29 @@ def f23_replace_package_with_a_completed_order():
     return scenario([market(101, ups)], max_live=5, multi=True)
 
 
+def f22_amended_result_after_dead_heat():
+    """the market is closed with a dead heat (two winners, one place) and then closed again with an amended result (one
+    winner): the dead-heat reduction must not survive into the settlement on the final book"""
+    ra = runner(1, atb=[(3.0, 50.0)], atl=[(3.5, 50.0)])
+    rb = runner(2, atb=[(4.0, 50.0)], atl=[(5.0, 50.0)])
+    ups = [
+        update(T0, [ra, rb], acts={"0": [create(0, 0, 1, "BACK", 3.0, 4.0), ["place", "t0", None, False],
+                                           create(1, 1, 2, "LAY", 5.0, 2.0), ["place", "t1", None, False]]}),
+        update(T0 + 200, [ra, rb]),
+        update(T0 + 1200, [ra, rb]),
+        update(T0 + 2200, [runner(1, status="WINNER"), runner(2, status="WINNER")], status="CLOSED", version=2),
+        update(T0 + 2700, [runner(1, status="WINNER"), runner(2, status="LOSER")], status="CLOSED", version=3),
+    ]
+    return scenario([market(101, ups)])
+
+
 
 ALL = [f4_cancel_failure_after_lapse, f4_update_failure_after_fill, f5_void_after_partial_cancel, f11_sp_order_on_removed_runner,
        f6_same_removal_in_two_markets, lambda: f6_same_removal_in_two_markets(True), f15_replace_with_failed_replacement, f3_place_twice,
        f2_refused_cancel, completes_during_cancel_latency, trade_reuse_after_complete, second_order_within_place_latency,
        replace_after_inplay_bet_delay, cancel_then_place_mixed_delays,
-       f24_place_the_closed_replacement, f23_replace_package_with_a_completed_order]
+       f24_place_the_closed_replacement, f23_replace_package_with_a_completed_order,
+       f22_amended_result_after_dead_heat]
 
 
 def all_scenarios():
